@@ -1349,6 +1349,9 @@ class ChunkedEncoder:
         """
         if self.transport is None:
             raise ExcessWrite()
+        if not data:
+            # A zero-length chunk is the end-of-body marker.
+            return
         self.transport.writeSequence(
             (networkString("%x\r\n" % len(data)), data, b"\r\n")
         )
@@ -1357,7 +1360,9 @@ class ChunkedEncoder:
         """
         Indicate that the request body is complete and finish the request.
         """
-        self.write(b"")
+        if self.transport is None:
+            raise ExcessWrite()
+        self.transport.writeSequence((b"0\r\n", b"\r\n"))
         self.transport.unregisterProducer()
         self._allowNoMoreWrites()
 
